@@ -132,6 +132,15 @@ Section C03Schema.
     (forall e, In e exts -> accepts (3 + f) published_hugr_strict "Extension" e = true) ->
     accepts (6 + f) published_hugr_strict "Package" (pkg_json op_fields md_fields mods exts) = true.
   Proof. exact (published_model_pkg_accepted sop md op_fields md_fields op enc ndp md_is_nil). Qed.
+  (* ... and the emitted Package text, when it is pkg_json of the modules' model documents as data (run: pkg_ok) *)
+  Theorem C03_emitted_package_schema_valid : forall (f : nat) (hs : list (hugr op md)) (mods : list (serial sop md))
+      (exts : list json) (emitted : json),
+    4 <= f -> ops_valid0 published_hugr_strict sop op_fields f ->
+    mapM (to_serial enc ndp md_is_nil) hs = Some mods ->
+    (forall e, In e exts -> accepts (3 + f) published_hugr_strict "Extension" e = true) ->
+    data_equiv (pkg_json op_fields md_fields mods exts) emitted = true ->
+    accepts (6 + f) published_hugr_strict "Package" emitted = true.
+  Proof. exact (published_emitted_pkg_accepted sop md op_fields md_fields op enc ndp md_is_nil). Qed.
 End C03Schema.
 
 (* the same statements relative to ANY schema file whose SerialHugr / Package definitions have the expected shapes
@@ -188,6 +197,7 @@ Print Assumptions C03_example.
 Print Assumptions C03_model_document_schema_valid.
 Print Assumptions C03_emitted_document_schema_valid.
 Print Assumptions C03_model_package_schema_valid.
+Print Assumptions C03_emitted_package_schema_valid.
 Print Assumptions C03_validation_respects_data_equality.
 Print Assumptions C03_document_schema_valid_any_file.
 Print Assumptions C03_published_shapes.
